@@ -40,7 +40,7 @@ def main():
             cell = "(not run yet)"
         if m.get("undetected_reason") and not hits:
             cell = "not detected — " + m["undetected_reason"]
-        fz = m.get("frozen_harness_before_round2") or m.get("frozen_harness_before_round3")
+        fz = m.get("frozen_harness_before_round2") or m.get("frozen_harness_before_round3") or m.get("frozen_harness_before_round4")
         fzc = "" if fz is None else ("detected" if fz.get("detected_by_own_property_check") else "missed (exit %s)" % fz.get("exit"))
         if fz is None and (n.endswith("-a") or n.endswith("-b")):
             fzc = m.get("first_run_note", "detected on first run")
